@@ -291,6 +291,14 @@ func (s *Store) scan(m proto.Message, marshaled []byte) {
 	}
 }
 
+// FindField names the field of m that contains secret (raw or base58), "" if none.
+func FindField(m proto.Message, secret []byte) string {
+	if f := findField(m.ProtoReflect(), secret, ""); f != "" {
+		return f
+	}
+	return findField(m.ProtoReflect(), []byte(base58.Encode(secret)), "")
+}
+
 func findField(m protoreflect.Message, secret []byte, path string) string {
 	found := ""
 	m.Range(func(fd protoreflect.FieldDescriptor, v protoreflect.Value) bool {
